@@ -324,5 +324,5 @@ msolve = Fn(MSV + 'solve', ret='x', level='L1', inherent=True, valid='self.nrows
             requires=['C01.msolve.wf:: wf(*self)'],
             ensures=['C01.msolve.valid:: self.nrows == self.ncols && self.nrows == system.v@.len()', 'C01.msolve.len:: x.v@.len() == system.v@.len()',
                      'C01.msolve.lu_route:: exists|f: Seq<f64>, piv: Seq<i32>| f.len() == self.nrows * self.nrows && is_perm32(piv, self.nrows as int) && bounded(f, self.nrows as int, self.nrows as int) '
-                     '&& factored(self.data.v@, f, piv, self.nrows as int, self.nrows as int) && #[trigger] lu_solved(f, self.nrows as int, piv, system.v@, x.v@)'],
-            hints=[('lu.lu_solve(&piv, system)', 'replace', '({ let x_ = lu.lu_solve(&piv, system); proof { assert(lu_solved(lu.data.v@, self.nrows as int, piv@, system.v@, x_.v@)); } x_ })')])
+                     '&& factored(self.data.v@, f, piv, self.nrows as int, self.nrows as int) && #[trigger] lu_solved(f, self.nrows as int, piv, system.v@, x.v@) && lu_exact(self.data.v@, self.nrows as int, system.v@, x.v@, f, piv)'],
+            hints=[('lu.lu_solve(&piv, system)', 'replace', '({ let x_ = lu.lu_solve(&piv, system); proof { assert(lu_solved(lu.data.v@, self.nrows as int, piv@, system.v@, x_.v@)); lemma_lu_route_exact(self.data.v@, lu.data.v@, piv@, self.nrows as int, system.v@, x_.v@); } x_ })')])
